@@ -501,7 +501,7 @@ Proof.
   - (* TCplx *) intros bo l [IHl _] r [IHr _] alias. split; [|exact I]. intros c ts H. cbn [rtoks] in H. destruct alias; [discriminate|].
     inv_some H. inversion H; subst. cbn [render]. rewrite (IHl _ _ E), (IHr _ _ E0). cbn [bind].
     rewrite flatten_parl, flatten_app, flatten_cons. cbn [tok_text binop_text].
-    rewrite !sapp_assoc. reflexivity.
+    rewrite !sapp_assoc. destruct (wa c); reflexivity.
   - (* TIn *) intros t [IHt _] cont [_ IHc] negated alias. split; [|exact I]. intros c ts H. cbn [rtoks] in H.
     destruct cont; try discriminate. destruct alias0; [discriminate|]. destruct alias; [discriminate|].
     inv_some H. inversion H; subst. cbn [render]. rewrite (IHt _ _ E). cbn [bind].
